@@ -21,7 +21,7 @@ ELEM = {"int8": 1, "uint8": 1, "int16": 2, "int32": 4}
 FAMS = ["single:conv@8", "single:dw@8", "single:maxpool@8", "single:avgpool@8", "single:fc@8", "conv_chain", "single:transpose@8",
         "single:add@8", "single:sub@8", "single:mul@8", "single:add_bcast@8", "single:mul_scalar@8", "single:concat@u8", "diamond", "siamese", "single:logistic@8", "single:tanh@8", "single:lrelu@8", "single:hswish@8",
         "single:transpose@8", "single:reshape@8", "single:pad@8", "single:slice@8", "single:concat@8", "conv_chain",
-        "single:conv", "single:dw", "single:fc", "single:maxpool", "single:avgpool"]
+        "single:conv", "single:dw", "single:fc", "single:maxpool", "single:avgpool", "single:pad_bc@8"]
 
 
 def macs_of(ref):
